@@ -4,13 +4,18 @@ import json, os
 from vf import Infra
 
 
+BASEH = {"Retarget": 2014}     # base-chain height per scenario family (default 120)
+
+
 def mc(ctx, fam, maxdeliver, allowbal="FALSE", checkmoney="TRUE", checkbip68="TRUE", timeout=3000, cfg="Ledger_mc", allowidle="FALSE"):
-    d = dict(FAM=fam, MAXDELIVER=maxdeliver, CHECKMONEY=checkmoney, CHECKBIP68=checkbip68, ALLOWBAL=allowbal, ALLOWIDLE=allowidle)
+    d = dict(FAM=fam, MAXDELIVER=maxdeliver, CHECKMONEY=checkmoney, CHECKBIP68=checkbip68, ALLOWBAL=allowbal, ALLOWIDLE=allowidle,
+             BASEH=BASEH.get(fam, 120))
     return ctx.tlc("LedgerMC", cfg, defines=d, timeout=timeout)
 
 
 def export(ctx, fam, maxdeliver, tag, allowbal="FALSE", emitat=0, simulate=None, depth=None, timeout=3000, allowidle="FALSE"):
-    d = dict(FAM=fam, MAXDELIVER=maxdeliver, CHECKMONEY="TRUE", CHECKBIP68="TRUE", ALLOWBAL=allowbal, EMITAT=emitat, ALLOWIDLE=allowidle)
+    d = dict(FAM=fam, MAXDELIVER=maxdeliver, CHECKMONEY="TRUE", CHECKBIP68="TRUE", ALLOWBAL=allowbal, EMITAT=emitat, ALLOWIDLE=allowidle,
+             BASEH=BASEH.get(fam, 120))
     r = ctx.tlc("LedgerGen", "Ledger_gen", workers=1, defines=d, simulate=simulate, depth=depth, timeout=timeout)
     r.require_ok("export " + tag)
     path = os.path.join(ctx.scratch, "lines-%s.json" % tag)
